@@ -349,6 +349,9 @@ def check(prop, tier):
             if fault["what"] == "time" or fault["k"] == 0:
                 jobs.append((prop, name + "/local/nocache", scen, fault,
                              dict(lazy=True, cache=False, transport="local"), 0, 1500))
+            if fault["k"] <= 1 and not scen.get("groups"):
+                jobs.append((prop, name + "/local/debug", scen, fault,
+                             dict(lazy=True, cache=True, debug=True, transport="local"), 0, 1500))
         if tier == "quick":
             for name, scen, fault in c13_cases(tier):
                 if fault["k"] == 0:
